@@ -209,7 +209,7 @@ def search(ctx, deep):
     arrays = gen_arrays(rng, nprng, 60 * (6 if deep else 1))
     # forced: very strong but imperfect dependence, tau = 1 - 4k/(n(n-1)) within 1e-5 .. 1e-6 of +-1 (one or two
     # adjacent transpositions in a long monotone sequence): theta must still be the finite calibration of tau
-    for n_, k_, sign in ((700, 1, 1), (2000, 1, 1), (1500, 2, -1)):
+    for n_, k_, sign in ((700, 1, 1), (2000, 1, 1), (1500, 2, -1), (10000, 1, 1)):    # the last: 1 - tau = 4e-8 < float32 eps
         u = (np.arange(n_) + 0.5) / n_
         v = u.copy()
         for j in range(k_):
@@ -412,6 +412,45 @@ def search(ctx, deep):
                                'after fit(X) tau and theta are those of X, whatever was fitted before',
                                f'{fam}.fit:refit-differs-from-fresh')
                 break
+    # history: a successful fit, then theta set from outside (the library's own tests assign theta; from_dict restores
+    # one), then a fit on data with exactly the same tau (the same X, X with its columns swapped): after fit(X) theta is
+    # the calibration of tau(X) again — nothing is skipped because tau "has not changed"
+    for fam in B.FAMS:
+        for X in valid[:4]:
+            fresh = B.cls_of(fam)()
+            try:
+                fresh.fit(X)
+            except ValueError:
+                continue
+            foreign = {'clayton': fresh.theta * 3 + 1, 'gumbel': fresh.theta * 2 + 1, 'frank': -fresh.theta * 2 - 1}[fam]
+            for label, X2 in (('same-X', X), ('columns-swapped', X[:, ::-1].copy())):
+                obj = B.cls_of(fam)()
+                obj.fit(X)
+                obj.theta = foreign
+                restored = B.cls_of(fam).from_dict(dict(fresh.to_dict(), theta=foreign)) if hasattr(B.cls_of(fam), 'from_dict') else None
+                outcomes = {}
+                for name, o in (('theta-reassigned', obj), ('from_dict-with-foreign-theta', restored)):
+                    if o is None:
+                        continue
+                    try:
+                        o.fit(X2)
+                        outcomes[name] = ('ok', o.tau, o.theta)
+                    except Exception as e:  # noqa
+                        outcomes[name] = ('err ' + vc.exc_kind(e), None, None)
+                ref = B.cls_of(fam)()
+                ref.fit(X2)
+                checked += 1
+                bad_ = {k: v for k, v in outcomes.items() if v != ('ok', ref.tau, ref.theta)}
+                if bad_:
+                    found += 1
+                    ctx.fail_input(f'{fam}.fit', {'history': f'fit(X); theta := {foreign}; fit({label})', 'X': X.tolist()[:6], 'n': len(X)},
+                                   {'got': {k: list(v) for k, v in bad_.items()}, 'fresh_fit': [ref.tau, ref.theta]},
+                                   'after fit(X) theta is the calibration of tau(X), whatever theta the object held before',
+                                   f'{fam}.fit:stale-theta-kept-when-tau-unchanged')
+                    break
+            else:
+                continue
+            break
     # history over ONE array object: the caller keeps a work buffer, overwrites it in place with the next batch and fits
     # again (the same model, another model of the family): the outcome is that of a fresh model fitted on a copy of the
     # values now in the buffer — nothing may be remembered per array identity, shape or class
